@@ -16,7 +16,15 @@ from framework import Prop, canon_json
 
 VIEWMODE = os.environ.get("C11_VIEWMODE", "fixed")
 
-EL = {"i8": 1, "i16": 2, "i32": 4, "i64": 8, "f16": 2, "f32": 4, "f64": 8}
+# Bit widths of the generated element types. One element occupies ceil(bits / 8) bytes in memory: that is what
+# the byte strides of the layout (tsl.get_step_ops), the DMA and the memref lowering use. The table is the
+# harness's own (it does not ask the type for its `.size`), so a wrong element size in the code under test shows.
+# Sub-byte and odd widths (i1 masks, i4, i12, i20, ...) are legal memref element types and are generated too.
+BITS = {"i1": 1, "i4": 4, "i7": 7, "i8": 8, "i12": 12, "i16": 16, "i20": 20, "i24": 24, "i32": 32, "i33": 33, "i64": 64,
+        "f16": 16, "bf16": 16, "f32": 32, "f64": 64}
+EL = {k: (b + 7) // 8 for k, b in BITS.items()}
+# generator weights: whole-byte widths and the others about half each
+EL_CHOICES = ["i8", "i16", "i32", "i64", "f16", "bf16", "f32", "f64", "i1", "i4", "i4", "i7", "i12", "i12", "i20", "i24", "i33"]
 ERR2EXC = {
     "innerDynamic": "AssertionError", "rankMismatch": "IndexError", "zeroDiv": "ZeroDivisionError",
     "full": "RuntimeError", "notStatic": "RuntimeError", "noMemSpace": "RuntimeError", "unknownMem": "KeyError",
@@ -101,7 +109,7 @@ def digits(bounds, i):
 
 
 def gen_size_case(rng, big=False):
-    el = rng.choice(list(EL))
+    el = rng.choice(EL_CHOICES)
     rank = rng.choice([1, 1, 2, 2, 3])
     if rng.random() < 0.12:
         tshape = [rng.choice([1, 2, 3, 5, 8, None]) for _ in range(rank)]
@@ -482,8 +490,11 @@ class C11(Prop):
         "MiniMallocate places each function separately: buffers of different functions may share addresses (outside the property text)",
         "alignment 0 handed to the external solver (alloc without alignment attribute in minimalloc mode) is outside the contract",
         "dynamic mode (runtime allocation through snax_alloc_l1) is not static allocation and is only recognised, not modelled",
+        "one element of an integer/float type of width w occupies ceil(w / 8) bytes (the convention of the layout's byte strides, "
+        "the DMA and xDSL's FixedBitwidthType.size); sub-byte packing and power-of-two padding (i20 in 4 bytes) are not considered",
     ]
-    rule = ("size: random TSL layouts (rank<=3, depth<=3, gaps, offsets, dynamic outer bounds/steps) and no-layout memrefs; "
+    rule = ("size: random TSL layouts (rank<=3, depth<=3, gaps, offsets, dynamic outer bounds/steps) and no-layout memrefs, "
+            "element types of whole-byte, sub-byte and odd widths (i1 i4 i7 i12 i20 i24 i33 ...; footprint ceil(bits/8)); "
             "static/mini: random functions with allocs, casts, view chains, nested uses, 1-2 memories; non-trivial = layout with "
             "gap/dynamic dim, or >=2 placed buffers; distinct by canonical JSON")
 
@@ -507,8 +518,8 @@ class C11(Prop):
 
     def exhaustive_small(self):
         """Named small space: one-dimensional layouts of depth <= 2 with bounds in {1,2,3,?} x {1,2,3}, steps in {1,2,4,6},
-        runtime extents 1..7, i8/i32 (all 2 x 4 x 3 x 16 x 7 combinations, plus depth 1)."""
-        for el in ["i8", "i32"]:
+        runtime extents 1..7, i8/i32/i4/i12 (all 4 x 4 x 3 x 16 x 7 combinations, plus depth 1)."""
+        for el in ["i8", "i32", "i4", "i12"]:
             for b0 in [1, 2, 3, None]:
                 for s0 in [1, 2, 4, 6]:
                     for n in range(1, 8):
